@@ -66,9 +66,19 @@ class H(explore.Harness):
                 return None
             if not hasattr(sess, "ev"):
                 sess.ev = set()
+            refused = {tuple(x) for x in self.p.get("refuse", ())}
+            rows = []
             for c in json.loads(body)["characteristics"]:
+                key = (c["aid"], c["iid"])
+                if "ev" in c and key in refused and c["ev"]:
+                    rows.append({"aid": c["aid"], "iid": c["iid"], "status": -70406})  # notification not supported for this characteristic
+                    continue
                 if "ev" in c:
-                    (sess.ev.add if c["ev"] else sess.ev.discard)((c["aid"], c["iid"]))
+                    (sess.ev.add if c["ev"] else sess.ev.discard)(key)
+                rows.append({"aid": c["aid"], "iid": c["iid"], "status": 0})
+            if any(r["status"] for r in rows):
+                # HAP 6.7.2.2: if any write fails the reply is 207 Multi-Status with a row for EVERY characteristic of the request
+                return 207, json.dumps({"characteristics": rows}).encode(), "application/hap+json"
             return 204, b"", None
         return std_handler()(sess, method, target, headers, body)
 
@@ -233,7 +243,7 @@ class H(explore.Harness):
         cur = self._cur()
         if self.pairing.is_connected and cur is not None:
             reg = getattr(cur.session, "ev", set())
-            missing = (set(self.pairing.subscriptions) | self.model_subs) - reg
+            missing = (set(self.pairing.subscriptions) | self.model_subs) - reg - {tuple(x) for x in self.p.get("refuse", ())}
             if missing and not self.cutoff_happened:
                 self.viol.append(("subscriptions-not-restored-on-live-session", {"missing": sorted(missing), "caller_subscribed": sorted(self.model_subs), "library_subscriptions": sorted(self.pairing.subscriptions), "registered": sorted(reg)}))
             extra = reg - set(self.pairing.subscriptions) - self.model_subs
@@ -287,7 +297,59 @@ def case_explore(p):
         h.close()
 
 
-CASES = {"explore": case_explore}
+def case_event_splits(p):
+    """Every position at which the accessory may end an encrypted block inside an EVENT (= the read boundary its HTTP layer sees), for one
+    HTTP style of the event (Content-Length, chunked, ...), followed by a second event: each must reach the listener exactly once, in order,
+    and the connection must stay up."""
+    out = []
+    style = p.get("style")
+    ev = lambda n: ipacc.event_message(ipacc.jbody({"characteristics": [{"aid": 1, "iid": 9, "value": n}]}))  # noqa: E731
+    plain1 = ipacc.restyle(ev(1), style) if style else ev(1)
+    nrun = 0
+    for k in range(1, len(plain1)):
+        for mode in ("one-read", "two-reads"):
+            h = H(dict(alphabet=[], seed=p.get("seed", 0)))
+            try:
+                cur = h._cur()
+                frames = cur.session.framer.seal_frames(plain1, [k, 1024])
+                if mode == "one-read":
+                    cur.send(b"".join(frames))
+                else:
+                    cur.send(frames[0])
+                    h.loop.run_until_idle()
+                    cur.send(b"".join(frames[1:]))
+                h.loop.run_until_idle()
+                plain2 = ipacc.restyle(ev(2), style) if style else ev(2)
+                if h._cur() is not None:
+                    h._cur().send(h._cur().session.respond(plain2))
+                h.loop.run_until_idle()
+                got = [(key, v.get("value")) for e in h.logs["L1"] for key, v in e.items()]
+                nrun += 1
+                if got != [((1, 9), 1), ((1, 9), 2)] or not h.pairing.is_connected or h.secure_connections != 1:
+                    out.append(("event-lost-or-connection-dropped-at-some-block-boundary", {"style": style, "first_block_bytes": k, "mode": mode, "got": got, "connected": bool(h.pairing.is_connected), "event_wire": plain1.decode("latin-1")}))
+                    break
+            finally:
+                h.close()
+        if out:
+            break
+    p["_n"] = nrun
+    return out
+
+
+CASES = {"explore": case_explore, "event_splits": case_event_splits}
+
+
+def _work_splits(item, seed, tier):
+    acc = core.Acc()
+    p = dict(item, seed=seed)
+    v = case_event_splits(p)
+    n = p.pop("_n", 1)
+    acc.case(key=("event_splits", core.jsonable(p)), outcome=f"event_splits:{'ok' if not v else v[0][0]}", sample={"case": "event_splits", "params": p}, symbols=("event_splits", f"style:{p.get('style')}"))
+    acc.extra["event_block_boundaries_run"] += n
+    acc.traces += n
+    for sig, detail in v:
+        acc.violation(sig, "event_splits", p, detail)
+    return acc
 
 
 def _work(item, seed, tier):
@@ -304,6 +366,9 @@ def run(ctx):
         (dict(alphabet=ALPH_EVENTS, max_drops=1, raiser="partial"), 4 if quick else 6),
         (dict(alphabet=["R+", "ev1", "ev2", "L2+", "drop"], max_drops=1, raiser="object"), 4 if quick else 5),
         (dict(alphabet=ALPH_OFFLINE, max_drops=2), 4 if quick else 6),
+        # an accessory that refuses notifications for one characteristic of the request: 207 with a row for every characteristic
+        (dict(alphabet=["sub:A", "sub:C", "unsub:A", "drop", "ev1"], max_drops=2, refuse=[(2, 10)]), 4 if quick else 6),
+        (dict(alphabet=["sub:B", "sub:C", "unsub:B", "drop", "offline", "online"], max_drops=2, refuse=[(1, 10)]), 4 if quick else 5),
     ]
     if not quick:
         configs.append((dict(alphabet=ALPH_SELF, max_drops=1), 5))
@@ -314,7 +379,11 @@ def run(ctx):
         work += [(p, r, d) for r in rs]
     ctx.bounds.update(configs=[dict(alphabet=c["alphabet"], depth=d) for c, d in configs])
     ctx.pmap(_work, work)
+    styles = [None, "chunked", "chunked-2", "chunked-lower"] + ([] if quick else ["lower", "upper", "mixed", "lws", "extra-headers", "no-ctype"])
+    ctx.pmap(_work_splits, [dict(style=st) for st in styles])
+    ctx.bounds.update(event_split_sweep="every block boundary inside an EVENT x HTTP style x {one read, two reads}", event_styles=styles)
     ctx.exhaustive = not ctx.acc.capped
+    ctx.require(ctx.acc.extra["event_block_boundaries_run"] >= 400, "event split sweep too small")
     for s in ("sub", "unsub", "drop", "arm-cut", "ev1", "ev2", "ev-split", "ev-empty", "ev-nonjson", "L2+", "R+", "offline", "online"):
         ctx.require(ctx.acc.symbols[s] > 0, f"symbol {s} never taken")
     ctx.require(len(ctx.acc.outcomes) >= 6, "too few distinct outcomes")
